@@ -393,16 +393,32 @@ def parse_dirs(img, limit=200000):
             at, off = nxt, 0
         return out
 
+    def read_upto(at, off, n):
+        """like read(), but returns what could be read before the first error (the readers list entries one by one)"""
+        out = b""
+        try:
+            while n:
+                d, nxt = block(at)
+                if off >= len(d):
+                    break
+                part = d[off:off + n]
+                out += part
+                n -= len(part)
+                at, off = nxt, 0
+        except (ValueError, zlib.error, struct.error):
+            pass
+        return out
+
     graph, todo, steps = {}, [root], 0
-    try:
-        while todo:
-            r = todo.pop()
-            if r in graph:
-                continue
-            steps += 1
-            if steps > limit:
-                return None
-            base = read(itab + (r >> 16), r & 0xFFFF, 16 + 24)
+    while todo:
+        r = todo.pop()
+        if r in graph:
+            continue
+        steps += 1
+        if steps > limit:
+            return None
+        try:
+            base = read_upto(itab + (r >> 16), r & 0xFFFF, 16 + 24)
             typ = struct.unpack("<H", base[:2])[0]
             if typ == T_DIR:
                 start, _, size, off, _ = struct.unpack("<IIHHI", base[16:32])
@@ -410,22 +426,24 @@ def parse_dirs(img, limit=200000):
                 _, size, start, _, _, off, _ = struct.unpack("<IIIIHHI", base[16:40])
             else:
                 continue
-            graph[r] = []
-            if size < 4:
-                continue
-            data = read(dtab + start, off, size - 3)
-            p = 0
-            while p + 12 <= len(data):
-                cnt, sb, _ = struct.unpack("<III", data[p:p + 12]); p += 12
-                for _ in range(cnt + 1):
-                    if p + 8 > len(data):
-                        break
-                    eo, _, et, es = struct.unpack("<HhHH", data[p:p + 8]); p += 8 + es + 1
-                    c = (sb << 16) | eo          # the readers go by the inode's type, not the entry's
-                    graph[r].append(c)
-                    todo.append(c)
-    except (ValueError, zlib.error, struct.error):
-        pass
+        except (ValueError, zlib.error, struct.error):
+            continue
+        graph[r] = []
+        if size < 4:
+            continue
+        data = read_upto(dtab + start, off, min(size - 3, 1 << 22))
+        p = 0
+        while p + 12 <= len(data):
+            cnt, sb, _ = struct.unpack("<III", data[p:p + 12]); p += 12
+            if cnt > 255:
+                break
+            for _ in range(cnt + 1):
+                if p + 8 > len(data):
+                    break
+                eo, _, et, es = struct.unpack("<HhHH", data[p:p + 8]); p += 8 + es + 1
+                c = (sb << 16) | eo          # the readers go by the inode's type, not the entry's
+                graph[r].append(c)
+                todo.append(c)
     return graph
 
 
